@@ -731,7 +731,16 @@ def style_case(sub: Ctx, seed: int, h: int):
                 kw2[a] = (rng.choice(HORIZ), rng.choice(VERT))
             kw = kw2
         near = kw
+        if log and rng.random() < 0.25:
+            # a name that differs from an earlier style's only in case or in space vs dash (two styles, one spelling family)
+            prev = rng.choice(log)["name"]
+            kw["name"] = rng.choice([prev.lower(), prev.upper(), prev.replace(" ", "-"), prev.swapcase()])
+            while any(kw["name"] == x["name"] for x in log):
+                kw["name"] += "_"
+        elif rng.random() < 0.15:
+            kw.pop("name")   # library-chosen name ('Custom Style N')
         st = doc.add_style(**kw)
+        kw = dict(kw, name=st.name)
         styles.append(st)
         log.append({a: (v if not hasattr(v, "filename") else "png:" + v.filename) for a, v in kw.items()})
     cells = [(r, c) for r in range(nr) for c in range(nc)]
@@ -816,8 +825,10 @@ def style_case(sub: Ctx, seed: int, h: int):
             else:
                 kw = gen_style_kwargs(rng, fonts, 100 + j, with_image=False)
                 kw["name"] = f"P{j} " + kw["name"]
+            if reopened and rng.random() < 0.4:
+                kw.pop("name")   # a library-chosen name on a reopened document (the numbering restarts from what the file holds)
             news.append(bdoc.add_style(**kw))
-            log2.append(dict(kw))
+            log2.append(dict(kw, name=news[-1].name))
         if not reopened and rng.random() < 0.6:
             # an attribute of a style that is already applied (and saved) is changed on the Style object itself: every
             # cell that carries the style shows the new value, now and after the next save
